@@ -75,6 +75,7 @@ type ex struct {
 	inl     map[types.Object]ast.Expr // inlined locals and parameters
 	ranges  map[types.Object]rangeBind
 	assigns map[types.Object]int
+	lname   map[types.Object]string // canonical names of non-struct locals and parameters: <type>#<k>
 	busy    map[types.Object]bool
 	events  []event
 	depth   int
@@ -161,6 +162,9 @@ func (x *ex) text(e ast.Expr) string {
 			if n := structName(vr.Type()); n != "" {
 				return n
 			}
+			if n, ok := x.lname[o]; ok {
+				return n // a local or parameter: named by type and declaration order, not by its name
+			}
 		}
 		return v.Name
 	case *ast.SelectorExpr:
@@ -173,6 +177,13 @@ func (x *ex) text(e ast.Expr) string {
 	case *ast.CallExpr:
 		if x.isIntConv(v) {
 			return x.text(v.Args[0]) // integer conversions do not change the value here
+		}
+		if sel, ok := v.Fun.(*ast.SelectorExpr); ok && sel.Sel.Name == "AnyInteresting" && len(v.Args) == 0 {
+			// osm.Tags.AnyInteresting() is hasInterestingTags(tags, nil) (C17_has_interesting_is_AnyInteresting,
+			// and compared per case: judgement code 3)
+			if t := x.p.Info.TypeOf(sel.X); t != nil && types.TypeString(t, func(p *types.Package) string { return p.Name() }) == "osm.Tags" {
+				return "hasInterestingTags(" + x.text(sel.X) + ", nil)"
+			}
 		}
 		var args []string
 		for _, a := range v.Args {
@@ -671,6 +682,27 @@ func (x *ex) stmt(s ast.Stmt, pc, scope string, inCallee bool) string {
 		return pc
 	case *ast.AssignStmt:
 		x.calls(v, scope, pc, false)
+		if v.Tok == token.ASSIGN && len(v.Lhs) == 1 && len(v.Rhs) == 1 {
+			// x = x || e  is  if e { x = true };  x = x && e  is  if !e { x = false }
+			if id, ok := v.Lhs[0].(*ast.Ident); ok {
+				if be, ok := v.Rhs[0].(*ast.BinaryExpr); ok && (be.Op == token.LOR || be.Op == token.LAND) {
+					var other ast.Expr
+					if l, ok := be.X.(*ast.Ident); ok && x.obj(l) == x.obj(id) {
+						other = be.Y
+					} else if r, ok := be.Y.(*ast.Ident); ok && x.obj(r) == x.obj(id) {
+						other = be.X
+					}
+					if other != nil {
+						if be.Op == token.LOR {
+							x.emit(scope, "assign", x.text(id), "true", cand(pc, x.cx(other)))
+						} else {
+							x.emit(scope, "assign", x.text(id), "false", cand(pc, cnot(x.cx(other))))
+						}
+						return pc
+					}
+				}
+			}
+		}
 		x.define(v.Lhs, v.Rhs, scope, pc, v.Tok == token.DEFINE)
 		return pc
 	case *ast.DeferStmt:
@@ -836,6 +868,30 @@ func main() {
 			declOf[o] = fd
 		}
 	}
+	// canonical names for locals and parameters: per function, per type, in declaration order
+	lname := map[types.Object]string{}
+	qual := func(p *types.Package) string { return p.Name() }
+	for _, fd := range decls {
+		cnt := map[string]int{}
+		ast.Inspect(fd, func(n ast.Node) bool {
+			id, ok := n.(*ast.Ident)
+			if !ok {
+				return true
+			}
+			o := p.Info.Defs[id]
+			v, isVar := o.(*types.Var)
+			if !isVar || v.IsField() || id.Name == "_" || structName(v.Type()) != "" {
+				return true
+			}
+			if _, seen := lname[o]; seen {
+				return true
+			}
+			ts := types.TypeString(v.Type(), qual)
+			lname[o] = fmt.Sprintf("%s#%d", ts, cnt[ts])
+			cnt[ts]++
+			return true
+		})
+	}
 	keys := []string{"Convert", "context.getNode", "context.nodeToFeature", "context.wayToLineString", "context.wayToFeature",
 		"context.buildRouteLineString", "context.addMetaProperties", "hasInterestingTags", "toRing",
 		"context.buildPolygon", "addToMultiPolygon", "polygonContains", "reorient"}
@@ -856,7 +912,7 @@ func main() {
 			continue
 		}
 		x := &ex{p: p, decls: decls, declOf: declOf, targets: targets, subs: map[types.Object]string{},
-			inl: map[types.Object]ast.Expr{}, ranges: map[types.Object]rangeBind{}, assigns: map[types.Object]int{}, busy: map[types.Object]bool{}}
+			inl: map[types.Object]ast.Expr{}, ranges: map[types.Object]rangeBind{}, assigns: map[types.Object]int{}, busy: map[types.Object]bool{}, lname: lname}
 		for _, d := range decls {
 			x.countAssigns(d)
 		}
@@ -872,7 +928,7 @@ func main() {
 	var optRows []string
 	lits := map[string]bool{}
 	x := &ex{p: p, decls: decls, declOf: declOf, targets: targets, subs: map[types.Object]string{},
-		inl: map[types.Object]ast.Expr{}, ranges: map[types.Object]rangeBind{}, assigns: map[types.Object]int{}, busy: map[types.Object]bool{}}
+		inl: map[types.Object]ast.Expr{}, ranges: map[types.Object]rangeBind{}, assigns: map[types.Object]int{}, busy: map[types.Object]bool{}, lname: lname}
 	for _, f := range p.Files {
 		ast.Inspect(f, func(n ast.Node) bool {
 			if bl, ok := n.(*ast.BasicLit); ok && bl.Kind == token.STRING {
